@@ -231,4 +231,29 @@ def checkArgs (ws : Option (List Rat)) (n : Nat) : Except ArgError (List Rat) :=
   | some w => if w.length ≠ n then .error .weightsLength else if n = 0 then .error .emptyInput else .ok w
   | none => if n = 0 then .error .emptyInput else .ok (List.replicate n 1)
 
+/-! ### executable checkers for the implementation's own (floating-point) outputs
+
+`tol ≥ 0` absorbs the rounding of the real code; with `tol = 0` these are the exact clauses of the
+C19 theorems.  Each is proved equivalent to its specification in `Proofs/AggregateCheck.lean`. -/
+
+/-- class probabilities form a distribution over `c` classes (up to `tol`) -/
+def checkSimplex (tol : Rat) (c : Nat) (loc : List Rat) : Bool :=
+  loc.length == c && loc.all (fun x => decide (-tol ≤ x)) &&
+  decide (loc.sum - 1 ≤ tol) && decide (1 - loc.sum ≤ tol)
+
+/-- the aggregated mean lies between the extremes of the members present at the cell (up to `tol`) -/
+def checkBetween (tol : Rat) (ws : List Rat) (ys : List Cell) (a : Rat) : Bool :=
+  (present ws ys).any (fun p => decide (p.2 - tol ≤ a)) && (present ws ys).any (fun p => decide (a ≤ p.2 + tol))
+
+/-- total / aleatoric / epistemic uncertainty: in range `[0, hi]` resp. `≥ 0`, and `total = aleatoric + epistemic` -/
+def checkUncertainty (tol hi u a e : Rat) : Bool :=
+  decide (-tol ≤ u) && decide (u ≤ hi + tol) && decide (-tol ≤ a) && decide (-tol ≤ e) &&
+  decide (u - (a + e) ≤ tol) && decide ((a + e) - u ≤ tol)
+
+/-- a single uncertainty value in `[0, hi]` -/
+def checkRange (tol hi u : Rat) : Bool := decide (-tol ≤ u) && decide (u ≤ hi + tol)
+
+/-- mixture variance = aleatoric variance + epistemic variance -/
+def checkTotalVariance (tol v a e : Rat) : Bool := decide (v - (a + e) ≤ tol) && decide ((a + e) - v ≤ tol)
+
 end DH.Aggregate
